@@ -1,4 +1,16 @@
 #!/bin/bash
-# Offline setup: the only third-party need beyond the repository's own environment is Hypothesis.
-/venv/bin/python -c 'import hypothesis' 2>/dev/null && { echo "hypothesis present"; exit 0; }
-PIP_NO_INDEX=1 /venv/bin/pip install --no-index --find-links /opt/veriftools/wheels hypothesis
+# Offline setup: the only third-party need beyond the repository's own environment is Hypothesis (and, for the
+# coverage-guided part of the thorough tier, atheris - installed beside the checks under /verif/.deps, never into /venv).
+cd "$(dirname "$0")" || exit 2
+if ! /venv/bin/python -c 'import hypothesis' 2>/dev/null; then
+  PIP_NO_INDEX=1 /venv/bin/pip install --no-index --find-links /opt/veriftools/wheels hypothesis || exit 1
+else
+  echo "hypothesis present"
+fi
+if ! PYTHONPATH="$PWD/.deps" /venv/bin/python -c 'import atheris' 2>/dev/null; then
+  PIP_NO_INDEX=1 /venv/bin/pip install --no-index --find-links /opt/veriftools/wheels --target "$PWD/.deps" atheris >/dev/null 2>&1 \
+    && echo "atheris installed under .deps" || echo "atheris not available (thorough tier runs without the coverage-guided part)"
+else
+  echo "atheris present"
+fi
+exit 0
